@@ -281,8 +281,11 @@ func runC09(c *Ctx) {
 	// operation on the same shared object, so that first use — and any
 	// unsynchronised state behind that operation — happens under contention
 	// before anything else has ordered the tasks
+	// (the object index ranges over twice the longest list of shared objects:
+	// with Draw(10) the eleventh shared logger - the one with chained hooks -
+	// had become unreachable when the list grew; found by bin/seedregress)
 	burst := g.Chance(2)
-	burstOp := c09op{kind: enabledKinds[g.Draw(len(enabledKinds))], a: g.Draw(10), b: g.Draw(8), c: g.Draw(16)}
+	burstOp := c09op{kind: enabledKinds[g.Draw(len(enabledKinds))], a: g.Draw(22), b: g.Draw(8), c: g.Draw(16)}
 	for t := range progs {
 		if burst {
 			progs[t] = append(progs[t], burstOp)
@@ -292,7 +295,7 @@ func runC09(c *Ctx) {
 		}
 		n := 1 + g.Draw(maxOps)
 		for i := 0; i < n; i++ {
-			op := c09op{kind: enabledKinds[g.Draw(len(enabledKinds))], a: g.Draw(10), b: g.Draw(8), c: g.Draw(16)}
+			op := c09op{kind: enabledKinds[g.Draw(len(enabledKinds))], a: g.Draw(22), b: g.Draw(8), c: g.Draw(16)}
 			if op.kind == 11 {
 				usesBWS = true
 			}
